@@ -41,7 +41,7 @@ fn random_name(r: &mut Rng) -> String {
     let mut s = String::new();
     for k in 0..n {
         let c = match r.below(8) {
-            0 if k > 0 && k + 1 < n && !s.ends_with('.') => '.',
+            0 if k > 0 && k + 1 < n => '.',
             1 => '_',
             2 | 3 => (b'0' + r.below(10) as u8) as char,
             _ => (b'a' + r.below(26) as u8) as char,
